@@ -168,7 +168,39 @@ func previewFile(rt *rapid.T) ([]byte, string) {
 // count-sized allocation: the total must still be bounded by the file size.
 func manySmall(rt *rapid.T) ([]byte, string, string) {
 	n := rapid.SampledFrom([]int{2, 8, 32, 200, 2000, 20000}).Draw(rt, "copies")
-	kind := rapid.SampledFrom([]string{"preview-boxes", "iloc-boxes", "cmt-boxes", "xpacket-boxes"}).Draw(rt, "what")
+	kind := rapid.SampledFrom([]string{"preview-boxes", "iloc-boxes", "cmt-boxes", "xpacket-boxes", "tiny-boxes", "tiny-boxes", "tiny-boxes"}).Draw(rt, "what")
+	if kind == "tiny-boxes" {
+		// header-only (or nearly) boxes of one known type: whatever the parser of that type does with a payload that is
+		// too short (an error value, a log record) must not cost more than a few bytes per box
+		typ := rapid.SampledFrom(gen.BoxTypes).Draw(rt, "tiny.type")
+		if rapid.Bool().Draw(rt, "tiny.common") {
+			typ = rapid.SampledFrom([]string{"uuid", "hdlr", "pitm", "iinf", "iloc", "infe", "idat", "iref", "iprp", "CTBO", "CNCV", "CMT1", "CMT3", "PRVW", "trak", "free"}).Draw(rt, "tiny.type2")
+		}
+		pl := rapid.IntRange(0, 8).Draw(rt, "tiny.payload")
+		n = rapid.SampledFrom([]int{2000, 20000, 100000}).Draw(rt, "tiny.copies")
+		where := rapid.SampledFrom([]string{"moov", "canon", "meta", "top"}).Draw(rt, "tiny.where")
+		one := (&gen.Box{Type: typ, Data: make([]byte, pl)}).Serialise(0)
+		body := bytes.Repeat(one, n)
+		brand := "crx "
+		var out []byte
+		switch where {
+		case "meta":
+			brand = rapid.SampledFrom([]string{"heic", "avif"}).Draw(rt, "tiny.brand")
+			out = gen.Ftyp(brand, 0, "mif1", brand).Serialise(0)
+			out = append(out, (&gen.Box{Type: "meta", Full: true, Data: body}).Serialise(len(out))...)
+		case "canon":
+			out = gen.Ftyp(brand, 1, brand, "isom").Serialise(0)
+			canon := &gen.Box{Type: "uuid", Data: append(append([]byte{}, gen.UUIDCanon...), body...)}
+			out = append(out, (&gen.Box{Type: "moov", Kids: []*gen.Box{canon}}).Serialise(len(out))...)
+		case "moov":
+			out = gen.Ftyp(brand, 1, brand, "isom").Serialise(0)
+			out = append(out, (&gen.Box{Type: "moov", Data: body}).Serialise(len(out))...)
+		default:
+			out = append(gen.Ftyp(brand, 1, brand, "isom").Serialise(0), body...)
+		}
+		out = append(out, (&gen.Box{Type: "mdat", Data: make([]byte, 64)}).Serialise(len(out))...)
+		return out, fmt.Sprintf("%d x %q with %d payload bytes in %s", n, typ, pl, where), kind
+	}
 	var kids []*gen.Box
 	for i := 0; i < n; i++ {
 		switch kind {
